@@ -111,6 +111,31 @@ def c181(ctx):
                        for bb in [blk.idx for blk in P.switch_blocks(f) if any(s["k"] == "bin" and s["op"] == "Eq" and bool(K.user_locals(f, s["st"]["rv"]["a"]) & taken_locals) for s in K.cond_sources(f, blk.idx))])
         ctx.check(R, f, "first-always-taken", via_zero, "the first waiter is batched without consulting can_batch (taken == 0 ||)",
                   "the head's own input can be refused by can_batch (it would never get an output)", pt=b)
+    # `taken` counts exactly the batched waiters: it goes up only after core.batch took the waiter's input, and every batched waiter
+    # is counted -- core.work sizes its outputs by it and they are zipped with the first `taken` waiters, so a refused waiter that was
+    # counted is answered by a batch that never carried its input
+    incs = []
+    for blk in f.blocks:
+        for i_, st_ in enumerate(blk.st):
+            if st_["s"] == "=" and not st_["lhs"]["p"] and st_["lhs"]["l"] in taken_locals and st_["rv"]["r"] == "use":
+                a_ = st_["rv"]["a"]
+                if a_.get("k") in ("copy", "move"):
+                    ds_ = [p_ for (_pt, kind_, p_) in P.defs(f).of(a_["pl"]["l"]) if kind_ == "assign"]
+                    if ds_ and all(p_["rv"]["r"] == "bin" and p_["rv"]["op"].startswith("Add") for p_ in ds_):
+                        incs.append((blk.idx, i_))
+    ctx.floor(R, "increments of the batched-waiter count", len(incs), 1)
+    loop_heads = [p_ for p_ in P.call_points(f, r"WaitIterator.*Iterator>::next$|wait_list::WaitIterator.*::next$") if P.reach(f, P.after(f, p_), [p_]) is not None]
+    for inc in incs:
+        q = None
+        for h_ in loop_heads:
+            q = q or P.reach(f, P.after(f, h_), [inc], avoid=set(batch) | (set(loop_heads) - {h_}))
+        ctx.check(R, f, "count-after-batch", q is None and bool(loop_heads), "the count goes up only in an iteration that passed core.batch",
+                  "the count of batched waiters is raised in an iteration that has not (yet) batched its waiter: a waiter refused by can_batch is "
+                  "counted, core.work produces an output for it and it returns the result of a batch that never carried its input", pt=inc, path=q)
+    for b_ in batch:
+        q = P.reach(f, P.after(f, b_), loop_heads + work, avoid=set(incs))
+        ctx.check(R, f, "batch-is-counted", q is None, "every batched waiter is counted before the next waiter or the work",
+                  "a waiter can be batched without being counted (it would never get its output)", pt=b_, path=q)
     # the outputs are handed to exactly the taken waiters
     tk = P.call_points(f, r"Iterator::take$|iterator::Iterator>::take$")
     ctx.check(R, f, "outputs-to-taken", any(K.user_locals(f, P.term_at(f, p)["args"][1]) & taken_locals for p in tk),
